@@ -259,8 +259,7 @@ func (p *ParagraphReader) Next() (*Paragraph, error) {
 		lastKey = strings.TrimSpace(els[0])
 		value := strings.TrimSpace(els[1])
 
-		paragraph.Order = append(paragraph.Order, lastKey)
-		paragraph.Values[lastKey] = value
+		paragraph.Set(lastKey, value)
 	}
 }
 
